@@ -130,7 +130,7 @@ theorem runS_printSlices (l : Option (Sel × Bool)) (x : Sel) (b : Bool) (stk : 
       simp [stepS, finish_accOf]
     rw [runS_cons this]
     have ih := runS_printSlices l x b stk ss s' (done ++ [s])
-    simp only [printSlices, List.append_assoc, List.singleton_append] at ih ⊢
+    simp only [List.append_assoc, List.singleton_append] at ih ⊢
     exact ih
 
 /-! ### `{ rs_pairs }` -/
@@ -201,7 +201,7 @@ theorem runS_printPairs (l : Option (Sel × Bool)) (x : Sel) (b : Bool) (stk : L
     simp only [printPairs, List.append_assoc, List.cons_append]
     rw [runS_append_of (runS_printPair l _ done stk p h.1), runS_cons (step_pair_comma l _ done stk p h.1)]
     have ih := runS_printPairs l x b stk ps p' (done ++ [p]) h'
-    simp only [printPairs, List.append_assoc, List.singleton_append] at ih ⊢
+    simp only [List.append_assoc, List.singleton_append] at ih ⊢
     exact ih
 
 /-! ### the chain -/
@@ -425,12 +425,12 @@ theorem printSel_feed : ∀ (s : Sel) (left : Option (Sel × Bool)),
   | .attr b a, left => by
     simp only [feed]
     rw [printSel_feed a]
-    simp only [printLeft_dot, printLeft_dotdot, printSel, printSel_comb]
+    simp only [printLeft_dot, printSel, printSel_comb]
     rw [printSel_feed b left]; simp
   | .desc b a, left => by
     simp only [feed]
     rw [printSel_feed a]
-    simp only [printLeft_dot, printLeft_dotdot, printSel, printSel_comb]
+    simp only [printLeft_dotdot, printSel, printSel_comb]
     rw [printSel_feed b left]; simp
   | .item b sl, left => by
     simp only [feed, printSel]
